@@ -34,11 +34,11 @@ theorem wfB_wf (d : Dec) (m : Man) (h : wfB d m = true) : m.WF d := by
   refine ⟨h1, ?_, h3, ?_, ?_, ?_, ?_⟩
   · intro g hg; exact h2 g hg
   · intro x hx
-    have := h4 x hx
-    exact ⟨this.1.1, this.1.2, fun p hp => this.2 p hp⟩
+    obtain ⟨⟨⟨⟨⟨a1, a2⟩, a3⟩, a4⟩, a5⟩, a6⟩ := h4 x hx
+    exact ⟨a1, a2, fun p hp => ⟨(a3 p hp).1.1, (a3 p hp).1.2, (a3 p hp).2⟩, a4, a5, a6⟩
   · intro e he
     have := h5 e he
-    exact ⟨this.1, fun p hp => this.2 p hp⟩
+    exact ⟨this.1, fun p hp => ⟨(this.2 p hp).1.1, (this.2 p hp).1.2, (this.2 p hp).2⟩⟩
   · intro p hp
     have := h6 p hp
     refine ⟨descWfB_wf d _ this.1, ?_⟩
